@@ -515,8 +515,10 @@ def output_seps(tree: ast.Module, funcs: dict[str, ast.FunctionDef]) -> dict:
     u2 = [ast.unparse(e) for e in unpack[1].targets[0].elts]
     if u2 != [u1[0], u1[1], '*param_lst', u1[3], u1[4]] or f"{u1[2]} = '{chr(r_comma)}'.join(param_lst)" not in src:
         raise TranslateError(f'Output.parse: recombination of extra separators {u2}')
-    if 'sep and len(vals) > 5' not in src:
+    mg = re.search(r'sep and len\(vals\) (>=|>) (\d+)', src)
+    if not mg:
         raise TranslateError('Output.parse: recombination guard')
+    recombine_from = int(mg.group(2)) + (1 if mg.group(1) == '>' else 0)      # smallest number of pieces that is recombined
     # which constructor argument each unpacked variable feeds
     ctor = [n for n in ast.walk(ps) if isinstance(n, ast.Call) and ast.unparse(n.func) == 'cls']
     if len(ctor) != 1:
@@ -530,7 +532,8 @@ def output_seps(tree: ast.Module, funcs: dict[str, ast.FunctionDef]) -> dict:
             if nm_ in u1 and a in canon_init:
                 feeds[nm_] = canon_init[a]
     r_fields = [feeds.get(v, '?') for v in u1]
-    return {'esc': esc, 'w_comma': w_comma, 'r_comma': r_comma, 'w_fields': w_fields, 'r_fields': r_fields, 'n_exact': len(u1)}
+    return {'esc': esc, 'w_comma': w_comma, 'r_comma': r_comma, 'w_fields': w_fields, 'r_fields': r_fields, 'n_exact': len(u1),
+            'recombine_from': recombine_from}
 
 
 def gen_fields() -> tuple[str, dict]:
@@ -557,6 +560,9 @@ def gen_fields() -> tuple[str, dict]:
              f'Definition gen_out_read_comma : N := {o["r_comma"]}.',
              'Definition gen_out_write_order : list N := [' + '; '.join(str(order.index(x)) if x in order else '99' for x in o['w_fields']) + '].',
              'Definition gen_out_read_order : list N := [' + '; '.join(str(order.index(x)) if x in order else '99' for x in o['r_fields']) + '].',
+             '(* number of pieces unpacked exactly; smallest number of comma-separated pieces that is recombined into five *)',
+             f'Definition gen_out_exact_fields : nat := {o["n_exact"]}.',
+             f'Definition gen_out_recombine_from : nat := {o["recombine_from"]}.',
              '']
     return '\n'.join(lines), {'rowreader': {'prefix': prefix, 'skip': skip, 'min': lo, 'max': hi, 'form': form}, 'row_writers': writers,
                               'output': o, 'fixup': [fw, fr]}
